@@ -175,6 +175,11 @@ class Check:
             for cls, doc, sid in carrying_messages(rng):
                 for pretty in ((False, True) if tier == 'thorough' else (False,)):
                     cases.append((cls, layout, ro, to_text(doc, pretty=pretty), sid))
+                if layout == 'plain':
+                    # mixed layouts: a compact message into an indented running order, an indented message into a compact one
+                    ro_ind = to_text(gens.make_ro(['A', 'B', 'C'], layout=layout, para_layout='between', timing='mixed'), pretty=True)
+                    cases.append((cls, 'plain-indented', ro_ind, to_text(doc), sid))
+                    cases.append((cls, 'plain', ro, to_text(doc, pretty=True), sid))
         hist_cases = []
         for cls, layout, ro, msg, sid in cases:
             for via in ('parse', 'reader'):
